@@ -11,22 +11,85 @@ def J(*a, **k):
 LC = ["loop_invariant_base", "loop_invariant_step"]
 PC = ["postcondition"]
 
-# ------------------------------------------------------------------ SKINNY-128 single block
-H128 = "h_skinny128_cipher.c"
-J("s128.ecb_encrypt", ["C01", "C11", "C12"], H128, "h_ecb_encrypt", enforce="skinny128_ecb_encrypt",
-  must_have=LC + PC, replay="skinny128", timeout=900,
-  note="loop contract, ghost lock-step with spec128_round; in-place allowed")
-J("s128.ecb_decrypt", ["C01", "C03", "C11", "C12"], H128, "h_ecb_decrypt", enforce="skinny128_ecb_decrypt",
-  must_have=LC + PC, replay="skinny128", timeout=900,
-  note="loop contract, ghost lock-step with the explicit spec inverse round")
-J("s128.set_tk1", ["C01", "C04", "C11"], H128, "h_set_tk1", enforce="skinny128_set_tk1",
-  must_have=LC + PC, replay="skinny128", note="closed form TK1: cell i at round j = key[PT^j[i]]; rc LFSR vs table")
-J("s128.xor_tk1", ["C04", "C11"], H128, "h_xor_tk1", enforce="skinny128_xor_tk1",
-  must_have=LC + PC, replay="skinny128_tweak")
-J("s128.set_tk2", ["C01", "C10", "C11"], H128, "h_set_tk2", enforce="skinny128_set_tk2",
-  must_have=LC + PC, replay="skinny128_keylen", note="key 1..16 bytes symbolic; ghost = bytes ++ zeros")
-J("s128.set_tk3", ["C01", "C10", "C11"], H128, "h_set_tk3", enforce="skinny128_set_tk3",
-  must_have=LC + PC, replay="skinny128_keylen")
+# ------------------------------------------------------------------ SKINNY single block (128 and 64)
+for (B, blk) in (("128", 16), ("64", 8)):
+    H = "h_skinny%s_cipher.c" % B
+    s = "s%s." % B
+    f = "skinny%s_" % B
+    R = "skinny%s" % B
+    J(s + "ecb_encrypt", ["C01", "C09", "C11", "C12"], H, "h_ecb_encrypt", enforce=f + "ecb_encrypt",
+      must_have=LC + PC, replay=R, timeout=1200,
+      note="loop contract, ghost lock-step with spec round; exact 1-block extents; in-place allowed")
+    J(s + "ecb_decrypt", ["C01", "C03", "C09", "C11", "C12"], H, "h_ecb_decrypt", enforce=f + "ecb_decrypt",
+      must_have=LC + PC, replay=R, timeout=1200,
+      note="loop contract, ghost lock-step with the explicit spec inverse round")
+    J(s + "set_tk1", ["C01", "C04", "C11"], H, "h_set_tk1", enforce=f + "set_tk1",
+      must_have=LC + PC, replay=R, timeout=1800,
+      note="closed form TK1: cell i at round j = key[PT^j[i]]; rc LFSR vs table")
+    J(s + "xor_tk1", ["C04", "C11"], H, "h_xor_tk1", enforce=f + "xor_tk1",
+      must_have=LC + PC, replay=R + "_tweak", timeout=1200)
+    J(s + "set_tk2", ["C01", "C10", "C11"], H, "h_set_tk2", enforce=f + "set_tk2",
+      must_have=LC + PC, replay=R + "_keylen", note="key 1..block bytes symbolic; ghost = bytes ++ zeros")
+    J(s + "set_tk3", ["C01", "C10", "C11"], H, "h_set_tk3", enforce=f + "set_tk3",
+      must_have=LC + PC, replay=R + "_keylen")
+    TK = [f + "set_tk1", f + "set_tk2", f + "set_tk3"]
+    J(s + "set_key_inner", ["C01", "C10", "C04"], H, "h_set_key_inner", enforce=f + "set_key_inner",
+      replace=TK, must_have=PC, replay=R + "_keylen",
+      note="round count, which bytes go to TK1/TK2/TK3, each tweakey function called exactly once")
+    J(s + "set_key", ["C01", "C10", "C14", "C11"], H, "h_set_key", enforce=f + "set_key",
+      replace=[f + "set_key_inner"], must_have=PC, replay=R + "_keylen,reject",
+      note="return value over the full unsigned range of lengths; empty frame on rejection")
+    J(s + "set_tweaked_key", ["C04", "C10", "C14", "C11"], H, "h_set_tweaked_key", enforce=f + "set_tweaked_key",
+      defs=["VERIF_ALIAS_KEY=1"], replace=TK, must_have=PC, replay=R + "_tweak,reject", timeout=1800,
+      functions=[f + "set_tweaked_key", f + "set_key_inner"],
+      note="set_key_inner inlined (loop-free); set_tk1/2/3 replaced by their contracts (TK1 argument = tweak field of the same object: byte-range locality)")
+    for n in range(1, blk + 1):
+        J(s + "set_tweak.len%d" % n, ["C04", "C14", "C11"], H, "h_set_tweak", enforce=f + "set_tweak",
+          defs=["VERIF_CASE_LEN=%d" % n, "VERIF_ALIAS_KEY=1"], replace=[f + "xor_tk1"], must_have=PC, replay=R + "_tweak",
+          timeout=1800, note="tweak length %d (case split R8); NULL or non-NULL tweak; arbitrary previous tweak; xor_tk1 replaced by its contract" % n)
+    J(s + "set_tweak.invalid", ["C04", "C14"], H, "h_set_tweak", enforce=f + "set_tweak",
+      defs=["VERIF_CASE_INVALID=1", "VERIF_ALIAS_KEY=1"], replace=[f + "xor_tk1"], must_have=PC, replay=R + "_tweak",
+      note="tweak length 0 or > block (symbolic): returns 0, empty frame")
+
+# ------------------------------------------------------------------ generic CTR back ends: life cycle, setters
+HC128 = "h_skinny128_ctr.c"
+MF = ["--malloc-may-fail", "--malloc-fail-null"]
+J("c128.def_init", ["C15", "C16", "C11"], HC128, "h_def_init", enforce="skinny128_ctr_def_init", cbmc=MF,
+  must_have=PC, replay="ctr128_life", note="calloc may fail: 0 and nothing allocated; else fresh zeroed context, offset = block")
+J("c128.def_cleanup", ["C15", "C17"], HC128, "h_def_cleanup", enforce="skinny128_ctr_def_cleanup",
+  replace=["skinny_cleanse"], must_have=PC + ["C17 erasure"], replay="ctr128_life",
+  note="free() redirected to a checker asserting the whole context is zero at the moment of release; freed exactly once; NULL ctx: empty frame")
+J("c128.def_set_key", ["C10", "C14", "C05"], HC128, "h_def_set_key", enforce="skinny128_ctr_def_set_key",
+  replace=["skinny128_set_key"], must_have=PC, replay="ctr128_life")
+J("c128.def_set_tweaked_key", ["C10", "C14", "C04"], HC128, "h_def_set_tweaked_key", enforce="skinny128_ctr_def_set_tweaked_key",
+  replace=["skinny128_set_tweaked_key"], must_have=PC, replay="ctr128_life")
+J("c128.def_set_tweak", ["C14", "C04"], HC128, "h_def_set_tweak", enforce="skinny128_ctr_def_set_tweak",
+  replace=["skinny128_set_tweak"], must_have=PC, replay="ctr128_life")
+for n in range(0, 17):
+    J("c128.def_set_counter.len%d" % n, ["C05", "C14"], HC128, "h_def_set_counter", enforce="skinny128_ctr_def_set_counter",
+      defs=["VERIF_CASE_LEN=%d" % n], must_have=PC, replay="ctr128", note="counter length %d; NULL or not" % n)
+J("c128.def_set_counter.invalid", ["C05", "C14"], HC128, "h_def_set_counter", enforce="skinny128_ctr_def_set_counter",
+  defs=["VERIF_CASE_INVALID=1"], must_have=PC, replay="ctr128")
+
+# ------------------------------------------------------------------ MANTIS single block
+HM = "h_mantis_cipher.c"
+J("m.ecb_crypt", ["C02", "C09", "C11", "C12"], HM, "h_ecb_crypt", enforce="mantis_ecb_crypt",
+  must_have=LC + PC, replay="mantis", timeout=1800,
+  note="forward and reflected loops in lock-step with the paper's MANTIS-r steps; stored tweak")
+J("m.ecb_crypt_tweaked", ["C02", "C09", "C11", "C12"], HM, "h_ecb_crypt_tweaked", enforce="mantis_ecb_crypt_tweaked",
+  must_have=LC + PC, replay="mantis", timeout=1800, note="same with the explicit per-call tweak")
+J("m.set_key", ["C02", "C10", "C14", "C11"], HM, "h_set_key", enforce="mantis_set_key", unwind=10, loops=False,
+  must_have=PC, replay="mantis,reject",
+  note="k0, k1, k0' = (k0>>>1)^(k0>>63), decrypt mode swaps k0/k0' and xors alpha; zero tweak; the 8-iteration rotate loop is unwound (program-constant bound, unwinding assertion on)",
+  bounded=None)
+J("m.set_tweak", ["C02", "C14", "C11"], HM, "h_set_tweak", enforce="mantis_set_tweak", must_have=PC, replay="mantis,reject")
+J("m.swap_modes", ["C03", "C11"], HM, "h_swap_modes", enforce="mantis_swap_modes", must_have=PC, replay="mantis")
+
+J("c128.def_encrypt", ["C05", "C09", "C14"], HC128, "h_def_encrypt", enforce="skinny128_ctr_def_encrypt",
+  defs=["VERIF_ROLE_CTR=1"], replace=["skinny128_ecb_encrypt", "skinny128_inc_counter", "skinny128_xor", "skinny_xor"],
+  must_have=LC + PC + ["ptr-norm"], replay="ctr128", timeout=1800,
+  note="coverage layer: every data byte is combined exactly once with the keystream byte at the matching absolute "
+       "position; size <= 2^40 symbolic; in-place or disjoint; NULL arguments -> 0 with empty frame")
 
 
 def by_id(i):
